@@ -7,7 +7,7 @@ import copy
 import random
 from typing import Any, Optional
 
-from harness import common, edits, gen_docs, treewalk
+from harness import common, edits, gen_docs, health, treewalk
 from harness import store_driver as sd
 
 
@@ -105,6 +105,8 @@ def run_c05(ctx: common.Ctx):
                 continue
             ok_edits += 1
             probs = treewalk.wf_problems(f)
+            if not probs:
+                probs = [f'[{k_}] {m_}' for k_, m_ in health.problems(f, wf=False)]
             if getattr(e, 'damaged_donor', False):
                 probs = probs or ['a node still attached elsewhere was accepted and its old tree was left damaged']
             if probs:
@@ -268,6 +270,11 @@ def run_c06(ctx: common.Ctx):
             w = {'text': text, 'lf': lf, 'edit_seed': seed, 'n_edits': k + 1, 'p_focus': 0.5, 'history': hist, 'printed': out}
             glued = removal_glued_neighbours(prev_out, out, hist[-1])
             prev_out = out
+            hp = health.problems(f)
+            if hp:
+                ctx.monitor_failure(f'C06:health:{hp[0][0]}', f'after {hist[-1]}: {hp[0][1]} (the model no longer describes its own tokens, '
+                                    f'so what it says cannot be what the text says)', w)
+                break
             if g is None:
                 ctx.monitor_failure('C06:optional-child-removed-next-to-glued-token' if glued else 'C06:printed-text-rejected',
                                     f'after {hist[-1]} the printed document no longer parses', w)
@@ -392,6 +399,12 @@ def run_c11(ctx: common.Ctx):
                 break
             if treewalk.text_of(c) != ctext or treewalk.dump(c) != cdump:
                 ctx.monitor_failure('C11:original-edit-changed-copy', f'editing the original [{oh}] changed deepcopy({p})', dict(w, orig_edits=oh))
+            for who, doc_ in (('the copy', c), ('the original', f)):
+                hp = health.problems(doc_)
+                if hp:
+                    ctx.monitor_failure(f'C11:health:{hp[0][0]}', f'after the edits of copy {ch} and original {oh}, {who}: {hp[0][1]}',
+                                        dict(w, copy_edits=ch, orig_edits=oh))
+                    break
             ctx.case({'path': p, 'class': type(m).__name__, 'pre_edits': len(pre), 'copy_edits': ch[:3]},
                      nontrivial=bool(ch or oh))
         # deep copies of node LISTS (model.raw_xs wrappers): editing the copied list must not reach the original's
@@ -644,6 +657,9 @@ def run_c20(ctx: common.Ctx):
             hist.append(repr(e))
             after = (treewalk.text_of(f), treewalk.dump(f))
             changed = before != after
+            hp = health.problems(f)
+            if hp:
+                ctx.monitor_failure(f'C20:health:{hp[0][0]}', f'after {hist[-1]}: {hp[0][1]}', dict(w, edit_seed=seed, history=hist))
             # whatever the edit was (in-place arithmetic, assignments, list operations): a deep copy of the edited
             # document equals it, both ways
             try:
